@@ -165,7 +165,7 @@ impl Scenario for WsBatch {
 	fn setup(&self) -> CliState {
 		let ops = vec![if self.typed { FeOp::BatchStr(self.n) } else { FeOp::Batch(self.n) }];
 		let env = vec![EnvEvent::Raw { after: self.used_client + 1, text: self.reply.clone() }];
-		clim::setup(&CliScenarioCfg { fail_close: false, ws_builder: None, rx_split: false, ping_ms: None, send_ping_ms: None, fail_ping: false, warmup: self.used_client, id_kind: self.kind, ops, env, fail_send_at: None, tx_points: false, buffer_cap: 4, late_after: 0 })
+		clim::setup(&CliScenarioCfg { request_timeout_ms: None, frame_ws: "", fail_close: false, ws_builder: None, rx_split: false, ping_ms: None, send_ping_ms: None, fail_ping: false, warmup: self.used_client, id_kind: self.kind, ops, env, fail_send_at: None, tx_points: false, buffer_cap: 4, late_after: 0 })
 	}
 	fn judge(&self, st: CliState, _t: &[String], panics: &[String], _s: Status) -> Verdict {
 		let l = st.log.lock().unwrap();
@@ -287,7 +287,7 @@ impl Scenario for ConcurrentBatches {
 	}
 	fn setup(&self) -> CliState {
 		let env = (0..self.ops.len()).map(|k| EnvEvent::Answer { msg: k, kind: clim::AnswerKind::OkRev }).collect();
-		clim::setup(&CliScenarioCfg { fail_close: false, ws_builder: None, rx_split: false, ping_ms: None, send_ping_ms: None, fail_ping: false, warmup: 0, id_kind: self.kind, ops: self.ops.clone(), env, fail_send_at: None, tx_points: false, buffer_cap: 4, late_after: 0 })
+		clim::setup(&CliScenarioCfg { request_timeout_ms: None, frame_ws: "", fail_close: false, ws_builder: None, rx_split: false, ping_ms: None, send_ping_ms: None, fail_ping: false, warmup: 0, id_kind: self.kind, ops: self.ops.clone(), env, fail_send_at: None, tx_points: false, buffer_cap: 4, late_after: 0 })
 	}
 	fn judge(&self, st: CliState, _t: &[String], panics: &[String], _s: Status) -> Verdict {
 		let l = st.log.lock().unwrap();
